@@ -96,6 +96,101 @@ def unmerged(ftype, tier, st, failures):
     st.bump("unmerged_histories", n)
 
 
+MERGE_PAIRS = {"quick": 60, "thorough": 400}
+MERGE_PAIRS_DEEP = {"quick": 4, "thorough": 40}
+
+
+def _ext_obs(ftype, tier, hist_ids, exts):
+    """Observations of `hist + ext` for each extension, relative to the extension's own lines."""
+    tasks = [(ftype, hist_ids + e, tier, {"fast": True, "rel": len(e)}) for e in exts]
+    res = explore.pmap(progrun.eval_hist, tasks, chunksize=8)
+    out = []
+    for e, o in zip(exts, res):
+        first = o.get("first_blk") or 0
+        rel = sorted((d[1], d[2] - first, d[3]) for d in o["errs"] if d[2] is not None and d[2] >= first)
+        out.append((rel, o["exc"][0] if o["exc"] else None, o.get("ikey"), tuple(o["seg"])))
+    return out
+
+
+def merge_validation(ftype, tier, seen, edges, st, failures):
+    """Bounded bisimulation check of the abstraction (DESIGN §2.1): a discarded history and the
+    representative it was merged into must behave identically under every extension of length 1
+    (and length 2 for a subset).  A mismatch refines the search: the discarded history is explored too."""
+    b = progrun.BOUNDS[tier]
+    merged = [(seen[k], h) for (par, h, k, new) in edges if not new and seen.get(k) is not None and seen[k] != h]
+    if not merged:
+        return
+    step = max(1, len(merged) // MERGE_PAIRS[tier])
+    pairs = merged[::step][:MERGE_PAIRS[tier]]
+    refinements = []
+    for pi, (h1, h2) in enumerate(pairs):
+        st1 = norm.replay(ftype, h1[2], b, with_preamble=False).st
+        exts = [(blk.bid,) for blk, ns in norm.enabled(st1, b)]
+        if pi < MERGE_PAIRS_DEEP[tier]:
+            for blk, ns in norm.enabled(st1, b):
+                exts += [(blk.bid, b2.bid) for b2, _ in norm.enabled(ns, b)]
+        try:
+            o1 = _ext_obs(ftype, tier, h1[2], exts)
+            o2 = _ext_obs(ftype, tier, h2[2], exts)
+        except KeyError:
+            refinements.append((h1, h2, "model-enabled-sets-differ"))
+            continue
+        st.runs += 2 * len(exts)
+        st.bump("merge_validations", len(exts))
+        for e, a, c in zip(exts, o1, o2):
+            if a != c:
+                refinements.append((h1, h2, e))
+                break
+    # the same pairs under one-violation extensions (the C02 oracle must not see the difference either)
+    from . import c02
+    nv = 0
+    for pi, (h1, h2) in enumerate(pairs[: (0 if tier == "quick" else 60)]):
+        st1 = norm.replay(ftype, h1[2], b, with_preamble=False).st
+        for blk, ns in norm.enabled(st1, b):
+            try:
+                v1 = {(v[0], v[2]): v for v in c02.variants(ftype, h1[2] + (blk.bid,), tier)}
+                v2 = {(v[0], v[2]): v for v in c02.variants(ftype, h2[2] + (blk.bid,), tier)}
+            except KeyError:
+                continue
+            keys = [k for k in v1 if k in v2]
+            # one site per operator
+            seen_ops = set()
+            keys = [k for k in keys if not (k[0] in seen_ops or seen_ops.add(k[0]))]
+            t1 = [(ftype, "test" + ftype, v1[k][3]) for k in keys]
+            t2 = [(ftype, "test" + ftype, v2[k][3]) for k in keys]
+            r1 = explore.pmap(progrun.eval_body, t1, chunksize=8)
+            r2 = explore.pmap(progrun.eval_body, t2, chunksize=8)
+            nv += len(keys)
+            st.runs += 2 * len(keys)
+            for k, a, c in zip(keys, r1, r2):
+                e1 = min(v1[k][4])
+                e2 = min(v2[k][4])
+                da = sorted((d[1], d[2] - e1) for d in a[0] if d[2] >= e1 - 1)
+                dc = sorted((d[1], d[2] - e2) for d in c[0] if d[2] >= e2 - 1)
+                if da != dc or (a[2] is None) != (c[2] is None):
+                    refinements.append((h1, h2, (blk.bid, k[0])))
+                    break
+    st.bump("merge_validations_with_violations", nv)
+    st.bump("abstraction_refinements", len(refinements))
+    st.extra["merge_pairs_validated"] = st.extra.get("merge_pairs_validated", 0) + len(pairs)
+    st.extra["abstraction_refinements"] = st.extra.get("abstraction_refinements", 0) + len(refinements)
+    # refinement: the discarded histories are explored on their own (depth <= 3, no deduplication against the main set)
+    for h1, h2, e in refinements[:20]:
+        level = [h2]
+        expand = expand_fn(ftype, tier)
+        for d in range(3):
+            nxt = []
+            for h in level:
+                nxt.extend(expand(h))
+            nxt = nxt[:400]
+            obs = explore.pmap(progrun.eval_hist, [_task(h) for h in nxt], chunksize=8)
+            for h, o in zip(nxt, obs):
+                judge(h, o, failures, st)
+            st.runs += len(nxt)
+            level = nxt
+        st.sample({"abstraction_refinement": {"kept": list(h1[2]), "discarded": list(h2[2]), "differs_under": list(e) if not isinstance(e, str) else e}})
+
+
 CLI_CAP = {"quick": 120, "thorough": 600}
 
 
@@ -153,6 +248,7 @@ def run(tier, seed):
             st.sample({"ftype": ftype, "blocks": list(h[2]),
                        "text_tail": norm.render(rp.lines + norm.completion(rp.st)).split("\n")[12:]})
         unmerged(ftype, tier, st, failures)
+        merge_validation(ftype, tier, seen, edges, st, failures)
         accepting_cli(ftype, tier, seen, st, failures)
     st.states = total_states
     if total_states < 50:
